@@ -55,6 +55,7 @@ pub fn info() -> CheckInfo {
             "one calling convention (System V as __stdcall, in 1/8 of the programs with one or two parameter registers additionally declared callee-saved); variables named like a register always have the register's size; no CALLOTHER, no stack arguments of extern symbols, no float registers",
             "extern symbols have generic names (no hand-written stub of the analysis applies)",
             "a bare `Store [a] := R` is demanded only when `a` provably cannot be a stack address; Return expressions and indirect jumps without CFG edges are not demanded (DESIGN.md C14)",
+            "two template workloads with a must-set known by construction run next to the random programs: a function annotated with its own calling convention whose extra parameter register is read in the entry block, and a function that stores a parameter register through a pointer that is a stack address on one path and a parameter/loaded/global pointer on the other (the stored register is demanded)",
             "a panic of normalize_optimize is not judged here (inconclusive); a panic of the CFG builder or of compute_function_signatures, or no result within 60 s, is a violation",
             "known-finding keys (c14-call-without-return-site, c14-callee-reads-on-nonreturning-path, c14-combination-of-known-causes) are attached only when every upward-exposed use of the missed register has that structural cause: the call jump has no return site / the read is inherited from an internal callee only along callee paths that never reach a Return",
         ],
@@ -1510,6 +1511,95 @@ pub fn alt_cconv_check(project: &Project, must: &[String], rep: &mut Report) {
     }
 }
 
+/// Template workload: a parameter register is stored through a pointer that is the address of a stack slot on one path
+/// and a non-stack pointer (another parameter, a pointer loaded through it, or a global) on the other. The main
+/// oracle excuses every store of a bare register through a possibly stack-derived address as a spill; here the
+/// path on which the address is not a stack address is known by construction, so the stored register is read there.
+pub fn merged_pointer_case(rng: &mut Rng) -> (Project, Vec<String>) {
+    let mut n = 0u32;
+    let mut t = |p: &str| -> Tid {
+        n += 1;
+        tid(&format!("{p}_mp_{n}"), &format!("{:04x}", 0x5000 + n * 4))
+    };
+    let out = *rng.pick(&["RDI", "RDX", "RCX"]);
+    let val = *rng.pick(&["RSI", "R8", "R9"]);
+    let p = *rng.pick(&["RAX", "R10", "R11", "RBX"]);
+    let off = *rng.pick(&[-8i64, -16, -0x20, -0x48]);
+    let via_rbp = rng.chance(1, 3);
+    let b = |i: u32| tid(&format!("blk_mp_{i}"), &format!("mp{i:02}"));
+    // the non-stack alternative
+    let mut other_defs = Vec::new();
+    match rng.below(4) {
+        0 | 1 => other_defs.push(assign(t("d"), reg(p), e_reg(out))),
+        2 => other_defs.push(load(t("d"), reg(p), e_bin(BinOpType::IntAdd, e_reg(out), e_const(8, 8)))),
+        _ => other_defs.push(assign(t("d"), reg(p), e_const(0x601040, 8))),
+    }
+    // the stack alternative
+    let mut stack_defs = Vec::new();
+    let base = if via_rbp { "RBP" } else { "RSP" };
+    stack_defs.push(assign(t("d"), reg(p), e_bin(BinOpType::IntAdd, e_reg(base), e_const(off, 8))));
+    let mut entry_defs = Vec::new();
+    if via_rbp {
+        entry_defs.push(assign(t("d"), reg("RBP"), e_reg("RSP")));
+    }
+    if rng.bool() {
+        entry_defs.push(assign(t("d"), reg("R12"), e_const(rng.range_i64(0, 9), 8)));
+    }
+    // which alternative is assigned before the branch and which in the conditional block
+    let (first, second) = if rng.bool() { (other_defs, stack_defs) } else { (stack_defs, other_defs) };
+    entry_defs.extend(first);
+    let cond = e_bin(BinOpType::IntEqual, e_reg("R13"), e_const(0, 8));
+    let k = if rng.chance(1, 4) { 8 } else { 0 };
+    let addr = if k == 0 { e_reg(p) } else { e_bin(BinOpType::IntAdd, e_reg(p), e_const(k, 8)) };
+    let mut tail = vec![store(t("d"), addr, e_reg(val))];
+    if rng.bool() {
+        // overwritten afterwards: must not matter
+        tail.push(assign(t("d"), reg(val), e_const(0, 8)));
+    }
+    let blocks = vec![
+        blk(b(0), entry_defs, vec![jmp(t("j"), Jmp::CBranch { target: b(2), condition: cond }), jmp(t("j"), Jmp::Branch(b(1)))]),
+        blk(b(1), second, vec![jmp(t("j"), Jmp::Branch(b(2)))]),
+        blk(b(2), tail, vec![jmp(t("j"), Jmp::Return(e_reg("R14")))]),
+    ];
+    let f = sub(tid("sub_mp", "mp00"), "mp", blocks);
+    let entry = f.tid.clone();
+    let project = project_x64(program(vec![f], vec![], Some(entry)));
+    (project, vec![val.to_string()])
+}
+
+pub fn merged_pointer_check(project: &Project, must: &[String], rep: &mut Report) {
+    rep.eval();
+    let mut p = project.clone();
+    let res = guard(|| {
+        let _ = p.normalize_basic();
+        let graph = get_program_cfg(&p.program);
+        let (sigs, _logs) = compute_function_signatures(&p, &graph);
+        sigs.iter()
+            .find(|(t, _)| format!("{t}") == "sub_mp")
+            .map(|(_, sig)| sig.parameters.keys().filter_map(|loc| if let AbstractLocation::Register(v) = loc { Some(v.name.clone()) } else { None }).collect::<BTreeSet<String>>())
+    });
+    let case = || json!({"kind": "merged-pointer", "project": project_to_json(project), "must": must});
+    match res {
+        Err(msg) => rep.violation(format!("merged-pointer:panic:{}", panic_site(&msg)), None, format!("function signature analysis panicked: {msg}"), case(), 6),
+        Ok(None) => rep.inconclusive("merged-pointer:no-signature-for-function"),
+        Ok(Some(reported)) => {
+            for r in must {
+                if !reported.contains(r) {
+                    rep.violation(
+                        "miss:store-through-stack-or-other-pointer",
+                        None,
+                        format!("function `mp` stores the entry value of {r} through a pointer that is a stack address on one path and not a stack address on the other (so on that path the value is written to foreign memory, i.e. read), but the reported register parameters are {reported:?}\n{}", show_program(&project.program.term)),
+                        case(),
+                        6,
+                    );
+                }
+            }
+            rep.obs("workload:store-through-stack-or-other-pointer");
+            rep.nontrivial(fp_of(&project.program) ^ 0x3b9d);
+        }
+    }
+}
+
 fn run(cfg: &Cfg) -> Report {
     let shards = cfg.tier.pick(256usize, 2048usize);
     let per_shard = cfg.tier.pick(120usize, 320usize);
@@ -1517,6 +1607,10 @@ fn run(cfg: &Cfg) -> Report {
         for _ in 0..4 {
             let (project, must) = alt_cconv_case(rng);
             alt_cconv_check(&project, &must, rep);
+        }
+        for _ in 0..4 {
+            let (project, must) = merged_pointer_case(rng);
+            merged_pointer_check(&project, &must, rep);
         }
         for i in 0..per_shard {
             if TIMEOUTS.load(std::sync::atomic::Ordering::SeqCst) >= MAX_TIMEOUTS {
@@ -1610,6 +1704,13 @@ fn replay(_cfg: &Cfg, case: &Value) -> Report {
             Ok(Some(raw)) => check_case(&raw, false, &mut rep, true),
             Ok(None) => rep.note(format!("unknown built-in witness {key}")),
             Err(m) => rep.note(format!("building the witness {key} panicked: {m}")),
+        }
+        return rep;
+    }
+    if case["kind"] == json!("merged-pointer") {
+        if let Ok(project) = project_from_json(&case["project"]) {
+            let must: Vec<String> = case["must"].as_array().map(|a| a.iter().filter_map(|x| x.as_str().map(|s| s.to_string())).collect()).unwrap_or_default();
+            merged_pointer_check(&project, &must, &mut rep);
         }
         return rep;
     }
